@@ -61,6 +61,34 @@ theorem C04_expression_value (name : AttrName) (e : Node) (cas : List String) (i
   cases hm : (setOfList (dirNameParts name).2.2) <;> simp [transformModifiers, h1, h2, h3, h4]
   cases (dirNameParts name).2.1 <;> rfl
 
+/-- The array form `[value, arg]` WITHOUT a modifier list: the value is the first element, the argument comes from the name or
+    else is the second element, and the modifiers are the `_mod` suffixes of the name, each `true` (fix ee35fcf: they were dropped). -/
+theorem C04_array_argument_keeps_suffix_modifiers (name : AttrName) (e v second : Node) (cas : List String) (isComp : Bool) (st : St)
+    (hname : ∀ d, (dirNameParts name).1 = d → d ≠ "html" ∧ d ≠ "text" ∧ d ≠ "model" ∧ d ≠ "slots")
+    (hne : ∀ a k, e ≠ .mk .jsxEmpty a k)
+    (he : ∃ elems, arrayElems e = some elems ∧ plainElem elems 0 = some v ∧ plainElem elems 1 = some second ∧ plainElem elems 2 = none)
+    (hs : arrayElems second = none) :
+    (parseDirective name (.mk .jsxExprContainer cas [e]) isComp st).1 =
+      let mods := setOfList (dirNameParts name).2.2
+      let arg0 : Option Node := match (dirNameParts name).2.1 with | some a => some (nStr a) | none => some second
+      Dir.normal (dirNameParts name).1 arg0 (transformModifiers mods false) v := by
+  obtain ⟨h1, h2, h3, h4⟩ := hname _ rfl
+  obtain ⟨elems, he, h0, hs1, hs2⟩ := he
+  have hc : containerExpr (.mk .jsxExprContainer cas [e]) = some e := by
+    unfold containerExpr
+    split
+    · rename_i heq
+      simp at heq
+      obtain ⟨_, rfl⟩ := heq
+      split
+      · exact absurd rfl (hne _ _)
+      · rfl
+    · rename_i hh; exact absurd rfl (hh _ _)
+  unfold parseDirective
+  simp only [hc, he, h0, hs1, hs2, hs]
+  simp [h1, h2, h3, h4]
+  cases hm : (dirNameParts name).2.1 <;> cases hr : (setOfList (dirNameParts name).2.2) <;> simp
+
 /-- A runtime directive never disturbs the element's props: the pending props, merge arguments and dynamic-prop
     list are exactly what they were. -/
 theorem C04_frame (o : Opts) (isComp : Bool) (nameN valueN : Node) (as : List String) (acc : AttrAcc) (st : St)
